@@ -53,13 +53,13 @@ func unhx(s string) string {
 
 func joinC(l []string) string {
 	if len(l) == 0 {
-		return "-"
+		return "[]"
 	}
 	return strings.Join(l, ",")
 }
 
 func listOf(s string) []string {
-	if s == "-" {
+	if s == "[]" || s == "" {
 		return nil
 	}
 	return strings.Split(s, ",")
@@ -124,7 +124,7 @@ func errID(e error) int {
 
 func showErrs(es []error) string {
 	if es == nil {
-		return "-"
+		return "[]"
 	}
 	l := make([]string, len(es))
 	for i, e := range es {
@@ -351,6 +351,7 @@ type Exec struct {
 	items    []interface{}
 	itemSpec []string
 	copies   []*tabular.Cell
+	handles  []tabular.PropertyOwner // column handles taken earlier
 	wrappers []wrapper
 	ecs      []*tabular.ErrorContainer
 	events   []event
@@ -375,6 +376,7 @@ func (x *Exec) resetCase() {
 	x.items = nil
 	x.itemSpec = nil
 	x.copies = nil
+	x.handles = nil
 	x.wrappers = nil
 	x.ecs = nil
 	x.events = nil
@@ -730,6 +732,8 @@ func (x *Exec) owner(s string) tabular.PropertyOwner {
 		return x.cellPtr(atoi(p[1]), atoi(p[2]))
 	case "y":
 		return x.copies[atoi(p[1])]
+	case "h":
+		return x.handles[atoi(p[1])]
 	}
 	panic("bad owner " + s)
 }
@@ -1071,6 +1075,13 @@ func (x *Exec) do1(line string) (res string, leanLine string) {
 		var buf bytes.Buffer
 		err2 := auto.RenderTo(ref, &buf, unhx(toks[2]))
 		return fmt.Sprintf("res=%s str=%s res2=%s out2=%s", classify(err), hx(str), classify(err2), hx(buf.String())), line
+	case "colhandle": // colhandle T n : keep t.Column(n) for later use as owner h:<k>
+		h := x.tables[idOf(toks[1])].Column(atoi(toks[2]))
+		if h == nil {
+			return "nil", line
+		}
+		x.handles = append(x.handles, h)
+		return fmt.Sprintf("H%d", len(x.handles)-1), line
 	case "populate":
 		d := parseDecor(toks[1])
 		d.Populate()
@@ -1355,7 +1366,7 @@ func (x *Exec) do1(line string) (res string, leanLine string) {
 	case "ecaddlist":
 		if toks[2] == "nillist" {
 			x.ecs[idOf(toks[1])].AddErrorList(nil)
-			return "ok", "ecaddlist " + toks[1] + " -"
+			return "ok", "ecaddlist " + toks[1] + " []"
 		}
 		x.ecs[idOf(toks[1])].AddErrorList(parseErrs(toks[2]))
 		return "ok", line
@@ -1438,6 +1449,16 @@ func (x *Exec) chainLen(owner string) int {
 		s = fmt.Sprintf("%#v", x.cellPtr(atoi(p[1]), atoi(p[2])))
 	case "y":
 		s = fmt.Sprintf("%#v", x.copies[atoi(p[1])])
+	case "h":
+		// find which column the handle is, then read it through the table's %#v
+		for ti, t := range x.tables {
+			for n := 0; n <= t.NColumns(); n++ {
+				if interface{}(t.Column(n)) == interface{}(x.handles[atoi(p[1])]) {
+					return x.chainLen(fmt.Sprintf("c:%d:%d", ti, n))
+				}
+			}
+		}
+		return -1
 	case "c":
 		s = fmt.Sprintf("%#v", x.tables[atoi(p[1])])
 		i := strings.Index(s, ".Columns{")
